@@ -179,6 +179,8 @@ def check(ctx):
         {"fn": "IntInstruction as push::instruction::Instruction<S>>::perform::{closure#", "what": "RemainderByZero", "reason": "constant divisor 2", "guard": guard_const_divisor},
         {"fn": "IntInstruction as push::instruction::Instruction<S>>::perform::{closure#", "what": "Overflow:Rem", "reason": "constant divisor 2 (overflow only for -1)", "guard": guard_const_divisor},
         {"fn": "FloatInstruction as push::instruction::Instruction<S>>::perform::{closure#", "what": "Div::div", "reason": "OrderedFloat<f64> division is IEEE float division and never panics", "guard": guard_float_div},
+        {"fn": "int::clamp::Clamp as push::instruction::Instruction<S>>::perform::{closure#", "what": "Ord::clamp",
+         "reason": "i64::clamp panics only when min > max; the bounds are swapped into order first", "guard": guard_clamp_ordered},
         {"fn": "push_state::PushState::with_input::{closure#", "what": "panicking::panic_fmt",
          "reason": "documented proviso of the property: an input variable that was never bound", "guard": None},
     ] + rules_c04.stack_discharge()
@@ -272,6 +274,38 @@ def guard_const_divisor(ctx, s):
                 d = st["rv"]["b"]
                 div_ok = d.get("k") == "const" and d.get("v") not in (0, -1, None)
     return div_ok, "divisor constant not in {0,-1}: %s" % div_ok
+
+
+def _nonzero(v):
+    return v == 1 or (isinstance(v, tuple) and v and v[0] == "not" and 0 in v[1])
+
+
+def guard_clamp_ordered(ctx, s):
+    """`v.clamp(lo, hi)` panics iff lo > hi: on every path to the call the branch conditions must establish lo <= hi
+    (or both bounds are constants in order)"""
+    fn = ctx.F.fns[s["fn"]]
+    n = 0
+    for p in ctx.paths(fn):
+        for c in p.calls():
+            if not callee_is(c, "Ord::clamp") or len(c[3]) != 3:
+                continue
+            n += 1
+            lo, hi = c[3][1], c[3][2]
+            if lo[0] == "const" and hi[0] == "const" and isinstance(lo[3], int) and isinstance(hi[3], int) and lo[3] <= hi[3]:
+                continue
+            ok = False
+            for cnd in p.conds:
+                e, v = cnd[0], cnd[1]
+                if e[0] != "binop":
+                    continue
+                op, a, b = e[1], e[2], e[3]
+                if (a, b) == (lo, hi):
+                    ok = ok or (op in ("Gt", "Ge") and v == 0) or (op in ("Le", "Lt") and _nonzero(v))
+                elif (a, b) == (hi, lo):
+                    ok = ok or (op in ("Lt", "Le") and v == 0) or (op in ("Ge", "Gt") and _nonzero(v))
+            if not ok:
+                return False, "a path reaches clamp(%s, %s, %s) without having established min <= max: [%s]" % (short(c[3][0]), short(lo), short(hi), cond_str(p)[:200])
+    return n > 0, "%d clamp call path(s), each preceded by a branch that orders the bounds" % n
 
 
 def guard_float_div(ctx, s):
